@@ -31,5 +31,8 @@ def check(tier, seed):
                      "everything else symbolic.  _expand_operators keeps every coefficient and puts each old power at the position of its operator in the new list (0 for new operators); _combine_operators expands both operands to "
                      "one list, the canonically sorted union (or returns them unchanged for equal lists).  __pow__ with a non-negative integer exponent: exponent 0 constructs the identity form, a positive exponent returns the exp-fold "
                      "product of self with itself (loop rule with invariant result = self^(j+1), any exponent), the product being the contract of __mul__.")
+    d.add_callsite_witness("callsite:as_expr/coefficient-functions-keep-their-position", "nof_battery.py", "asexpr_finding",
+                           "conversion back (as_expr) is exercised by the bounded battery only; for coefficient functions that sympy regards as commutative (Abs ...) sympy reorders the product; "
+                           "the witness is replayed on every run")
     d.run_battery("nof_battery.py", ["algebra", "convert"], "<= 4 modes of mixed statistics, powers <= 2, Fock cutoff 6-9, 72 random triples + 80 single-term forms (powers 0-3, Fock cutoff up to 14) + 14 expressions, fixed seeds")
     return d.finish(level="proof", trusted_base=["contracts/nof.py", "concretiser/fock.py (battery oracle only)"])
